@@ -6,7 +6,7 @@
    the Go runtime reclaims a goroutine the transition system calls finished, are
    runtime facts outside a Gallina model; they are exercised by the harness
    (goroutine census, timeout ordering). *)
-From BV Require Import Base Term Expr Datalog Authz DatalogProofs AuthzProofs ChanLTS ChanLTSProofs TableProofs.
+From BV Require Import Base Term Expr Datalog Authz DatalogProofs AuthzProofs ChanLTS ChanLTSProofs TableProofs ChanPinProofs.
 
 (* (a) success is reported only for a world closed under one more round, below the fact limit *)
 Theorem C11_ok_is_fixpoint : forall rx lim rules facts fs,
